@@ -60,6 +60,9 @@ func TestVerifyFunctions(t *testing.T) {
 				if fs.genuineFirst {
 					kind += ":genuine-vals"
 				}
+				if fs.nilRest {
+					kind += ":nil-rest"
+				}
 			} else {
 				b = w.g[bh]
 			}
@@ -94,6 +97,17 @@ func TestVerifyFunctions(t *testing.T) {
 			contractOK := b.ValidateBasic(w.chainID) == nil
 			err := light.Verify(a.SignedHeader, a.ValidatorSet, b.SignedHeader, b.ValidatorSet, period, now, drift,
 				tmmath.Fraction{Numerator: num, Denominator: den})
+			// the two specialised entry points must agree with Verify on their own domain
+			if b.Height == a.Height+1 {
+				if e2 := light.VerifyAdjacent(a.SignedHeader, b.SignedHeader, b.ValidatorSet, period, now, drift); (e2 == nil) != (err == nil) {
+					t.Fatalf("VerifyAdjacent(%d -> %d) = %v but Verify = %v", a.Height, b.Height, e2, err)
+				}
+			} else {
+				if e2 := light.VerifyNonAdjacent(a.SignedHeader, a.ValidatorSet, b.SignedHeader, b.ValidatorSet, period, now, drift,
+					tmmath.Fraction{Numerator: num, Denominator: den}); (e2 == nil) != (err == nil) {
+					t.Fatalf("VerifyNonAdjacent(%d -> %d) = %v but Verify = %v", a.Height, b.Height, e2, err)
+				}
+			}
 			why := ""
 			if b.Height <= a.Height {
 				why = "height not later"
